@@ -6,20 +6,19 @@ from ..core import Family, log
 PROPERTY_FILES = ["C18"]
 TRUSTED_BASE = [
     "Coq 8.16.1 kernel (coqc full .vo build); vm_compute used only for closed facts about the 27 units (membership tables) and the refutation/non-vacuity examples",
-    "hand-written model coq/Model/Sudoku.v of src/solvers/sudoku.rs (SudokuSolver::new, update_candidates/is_candidate_valid, apply_naked_singles, apply_hidden_singles, apply_naked_pairs, the <=11-round loop of solve, verify_solution, parse_string, solve_sudoku, solve_sudoku_string) and of the part of ModelValidator::validate such a model can reach (modelled, not verified); tied by this run's differential: returned grid compared EXACTLY, plus the candidate table after new(), the result and table after one apply_advanced_techniques(), and the Eq propagators it posted (read off the Debug rendering of the solver, in posting order)",
+    "hand-written model coq/Model/Sudoku.v of src/solvers/sudoku.rs (SudokuSolver::new, update_candidates/is_candidate_valid, apply_naked_singles, apply_hidden_singles, apply_naked_pairs, the range test (has_invalid_clue) and the <=11-round loop of solve, verify_solution, parse_string, solve_sudoku, solve_sudoku_string) and of the part of ModelValidator::validate such a model can reach (modelled, not verified); tied by this run's differential: returned grid compared EXACTLY, plus the candidate table after new(), the result and table after one apply_advanced_techniques(), and the Eq propagators it posted (read off the Debug rendering of the solver, in posting order)",
     "engine, alldiff and equality propagators: coq/Model/{Propagate,Search,Limits}.v, Model/Props/{AllDiff,Basic}.v, Model/Gac.v (tied by C01-C05/C15/C19); Model::solve = Search.solve fifo (root LP step never runs in Enumerate mode without objective)",
     "the executable model stops at the first solution (first_solution = the limit-free instance of Limits.solve_lim); solve_sudoku_exec_eq proves it equal to Search.solve",
-    "extraction: ExtrOcamlBasic + ExtrOcamlNatInt, no Extract Constant of our own; OCaml driver ocaml/sudoku_cmd.ml; Rust harness harness/src/sudoku.rs (debug build: debug_assert! active)",
+    "extraction: ExtrOcamlBasic + ExtrOcamlNatInt, no Extract Constant of our own; OCaml driver ocaml/sudoku_cmd.ml; Rust harness harness/src/sudoku.rs (debug build: debug_assert! active; the raw grids `g:` of the malformed family are also run on the --release build and must give the same compared line)",
     "specification side: 'the clues admit a completion' is decided by the model's own search, which sudoku_sound/sudoku_complete/sudoku_none_sound prove to be exactly that; every `sat` is certified by checking the model's grid with the extracted valid_sudokub/agreesb; an independent exhaustive python solver (bitmask backtracking) re-decides every case and any disagreement is reported as a failure; validity of the IMPLEMENTATION's grid is judged in python",
 ]
 ASSUMPTIONS = [
     "no time (60 s default) or memory limit fires inside Model::solve: solve_sudoku maps every SolverError to None, so a timeout would be indistinguishable from 'no completion' (limits are C15); generated puzzles the debug-build implementation needs more than MS_LIMIT ms for are dropped (logged; none in practice: random puzzles take 1-40 ms), the thorough tier adds the repository's hard examples (17-clue 'platinum': ~18 s) unfiltered",
-    "clues in 0..9 (documented input domain); clues outside are the recorded class kf_clue_out_of_range",
     "i32 modelled as unbounded Z",
 ]
 RULE = ("case = 81-character puzzle string (or raw grid `g:`/malformed string `s:`): puzzles obtained from seeded random solved grids by clue removal to 17..60 clues, "
         "locally minimal unique-solution puzzles, multi-solution puzzles with 0..16 clues, contradictory clue sets (duplicate in row/column/box, a cell with no candidate, "
-        "deep contradictions found by changing one clue of a solvable puzzle, random conflict-free clue sets), malformed inputs; the implementation's grid must equal the model's grid exactly; "
+        "deep contradictions found by changing one clue of a solvable puzzle, random conflict-free clue sets), malformed inputs incl. raw grids with cells outside 0..9 (no completion: the answer must be none, in the debug and in the release build, and nothing may panic); the implementation's grid must equal the model's grid exactly; "
         "a returned grid must be a valid Sudoku agreeing with the clues, a grid must be returned iff a completion exists, the general solver (81 int(1,9), 27 alldiff, clue equalities, Model::solve) "
         "must give the same verdict; non-trivial = the puzzle has at least one empty cell and the front end or the search had to work (not every case is trivial: families report counts)")
 
@@ -278,18 +277,19 @@ def gen_malformed(tier, rng):
         c.append("s:" + "".join(s))
         L = rng.choice([0, 1, 9, 79, 80, 82, 83, 162])
         c.append("s:" + "".join(rng.choice("0123456789.") for _ in range(L)))
-    # raw grids with clues outside 0..9 (class kf_clue_out_of_range)
-    for _ in range(4 if tier == "quick" else 30):
+    # raw grids with cells outside 0..9 (the former class kf_clue_out_of_range, repaired: SudokuSolver::solve answers none
+    # before any search, so sparse grids are as cheap as full ones for the implementation and for the model; the witnesses
+    # of the class are corpus cases, corpus/sudoku.malformed.cases)
+    for t in range(8 if tier == "quick" else 60):
         g = random_solved(rng)
-        # well-filled grids only: the debug build panics here, so the difficulty probe cannot protect the (slow)
-        # extracted model from a hard search (a lone clue -1 at the end of the first row costs the model 5 minutes)
-        p = remove_to(rng, g, rng.randint(40, 60))
-        for _ in range(rng.randint(1, 2)):
-            p[rng.randrange(81)] = rng.choice([10, 11, -1, -5, 17, 100, 1000])
+        p = remove_to(rng, g, rng.choice([0, 1, 5, 17]) if t % 4 == 3 else rng.randint(20, 81))
+        for _ in range(rng.randint(1, 3)):
+            p[rng.randrange(81)] = rng.choice([10, 11, 16, 17, 32, 33, -1, -5, -15, -16, -31, 100, 1000, 65536, 2147483647, -2147483648])
         c.append("g:" + ",".join(str(v) for v in p))
-    # an otherwise empty grid with the foreign clue in the first cell (cheap), incl. the i32 extremes
-    for v in ([10, -1] if tier == "quick" else [10, 11, -1, -7, 100, 2147483647, -2147483648]):
+    # an otherwise empty grid with the foreign value in the first / the last cell, incl. the i32 extremes
+    for v in ([10, -1, 2147483647] if tier == "quick" else [10, 11, -1, -7, 100, 2147483647, -2147483648]):
         c.append("g:" + ",".join([str(v)] + ["0"] * 80))
+        c.append("g:" + ",".join(["0"] * 80 + [str(v)]))
     # raw grids inside the domain (same route as solve_sudoku on an array)
     for _ in range(4 if tier == "quick" else 30):
         g = random_solved(rng)
@@ -324,10 +324,24 @@ def case_puzzle(case):
     return [0 if ch in ".0" else int(ch) for ch in s]
 
 def corr(case, impl, mpart):
-    p = case_puzzle(case)
-    if p is not None and any(v < 0 or v > 9 for v in p) and impl.startswith("PANIC"):
-        return True     # debug build: debug_assert!(1 <= digit <= 9) in SudokuCandidateSet::single; the model describes the release build there
     return mpart is not None and impl.split(" # ")[0] == mpart
+
+REL = {}        # raw-grid case -> output of the --release harness (filled by prejudge_release, malformed family)
+def prejudge_release(cases, impl, model):
+    """second profile for the raw grids (the only inputs that can carry cells outside 0..9): debug_assert!s are off
+    and shifts wrap there, so 'no panic in the debug build' does not by itself say what a release build answers"""
+    raw = [c for c in cases if c.startswith("g:")]
+    if not raw: return
+    with core.Lock():
+        ok, out = core.build_harness(release=True)
+    if not ok:
+        log("[C18] release harness build failed:\n" + out[-2000:])
+        for c in raw: REL[c] = "MISSING (release harness build failed)"
+        return
+    rel = core.run_lines(core.harness_exe(release=True), "sudoku", raw)
+    for c, o in zip(raw, rel):
+        REL[c] = o if o is not None else "MISSING"
+    STATS["release_cases"] = STATS.get("release_cases", 0) + len(raw)
 
 def judge(case, impl, spec):
     p = case_puzzle(case)
@@ -365,6 +379,8 @@ def judge(case, impl, spec):
         if not (valid_grid(gg) and agrees(p, gg)): return "the general solver returned an invalid grid"
     if f.get("str", "-") != "-" and f["str"] != res: return "solve_sudoku_string differs from solve_sudoku"
     if f.get("x_api", "-") not in ("-", "same"): return "SudokuSolver::new(p).solve().solution differs from solve_sudoku(p)"
+    if case in REL and REL[case].split(" # ")[0] != impl.split(" # ")[0]:
+        return "the release build answers differently from the debug build: " + REL[case][:120]
     if "SLOW" in impl: return "solve took more than 30 s (timeout of 60 s would be reported as none)"
     return None
 
@@ -373,9 +389,10 @@ def nontrivial(case, impl):
     if p is None: return impl.startswith("perr")
     return any(v == 0 for v in p)
 
-def fam(name, gen):
+def fam(name, gen, prejudge=None):
     f = Family(name, "sudoku", gen, nontrivial=nontrivial, prop_judge=judge)
     f.corr = corr
+    if prejudge: f.prejudge = prejudge
     return f
 
 FAMILIES = [
@@ -383,6 +400,6 @@ FAMILIES = [
     fam("minimal_unique", gen_minimal),
     fam("multi_solution", gen_multi),
     fam("contradictory", gen_contra),
-    fam("malformed", gen_malformed),
+    fam("malformed", gen_malformed, prejudge_release),
     fam("repo_examples", gen_examples),
 ]
